@@ -270,6 +270,22 @@ InterfaceOperations::get_impl_definitions() const {
     return impl_definitions_;
 }
 
+// fix: the constructor-only impl of a generic struct is registered under the
+// impl's own spelling ("Queue<T>", "Map<K, V>"); recognise it by base name
+// and number of type parameters instead of the literal base + "<T>"
+static bool is_generic_ctor_impl_of(const ImplDefinition &impl,
+                                    const std::string &base_struct_name,
+                                    size_t type_argument_count) {
+    if (!impl.interface_name.empty() || impl.is_generic_instance ||
+        !impl.impl_node ||
+        impl.impl_node->type_parameters.size() != type_argument_count) {
+        return false;
+    }
+    size_t lt = impl.struct_name.find('<');
+    return lt != std::string::npos && lt == base_struct_name.size() &&
+           impl.struct_name.compare(0, lt, base_struct_name) == 0;
+}
+
 const ImplDefinition *
 InterfaceOperations::find_impl_for_struct(const std::string &struct_name,
                                           const std::string &interface_name) {
@@ -510,9 +526,9 @@ InterfaceOperations::find_impl_for_struct(const std::string &struct_name,
                                           "[GENERIC_IMPL] No constructors in ");
                                 for (const auto &ctor_impl :
                                      impl_definitions_) {
-                                    if (ctor_impl.struct_name ==
-                                            generic_struct_pattern &&
-                                        ctor_impl.interface_name.empty() &&
+                                    if (is_generic_ctor_impl_of(
+                                            ctor_impl, base_struct_name,
+                                            type_arguments.size()) &&
                                         !ctor_impl.constructors.empty()) {
                                         debug_msg(DebugMsgId::GENERIC_DEBUG,
                                                   "[GENERIC_IMPL] Found ");
@@ -623,9 +639,9 @@ InterfaceOperations::find_impl_for_struct(const std::string &struct_name,
                             DebugMsgId::GENERIC_DEBUG,
                             "[GENERIC_IMPL] New impl has no constructors, ");
                         for (const auto &ctor_impl : impl_definitions_) {
-                            if (ctor_impl.struct_name ==
-                                    generic_struct_pattern &&
-                                ctor_impl.interface_name.empty() &&
+                            if (is_generic_ctor_impl_of(
+                                    ctor_impl, base_struct_name,
+                                    type_arguments.size()) &&
                                 !ctor_impl.constructors.empty()) {
                                 debug_msg(
                                     DebugMsgId::GENERIC_DEBUG,
